@@ -67,6 +67,14 @@ def materialize(cls, defects, names):
         elif df == "nonconserving_flow":
             u, v = list(G.edges())[0]
             G[u][v]["flow"] += 2
+        elif df == "nonconserving_behind_zero_flow":
+            # every node balanced except one inner node whose incoming edges all carry 0 while its outgoing edge carries flow
+            if not cyc:
+                for (u, v), f in {(a, b): 3, (b, c): 3, (b, d): 0, (c, e): 3, (d, e): 2}.items():
+                    G[u][v]["flow"] = f
+            else:
+                for (u, v), f in {(a, b): 0, (b, c): 2, (c, b): 2, (c, d): 0, (d, e): 3}.items():
+                    G[u][v]["flow"] = f
         elif df == "constraint_absent_edge":
             kw[cons_key] = [[(a, e)]]
         elif df == "constraint_not_list_of_lists":
